@@ -2,7 +2,7 @@
 # tools/try_mutations.sh Cxx [checks...] : applies each /tmp/mut-Cxx-out/<i>/patch.diff to /repo, runs demo + the checks, reverts.
 ID=$1; shift; CHECKS="${@:-$ID}"
 cd /verif
-for d in /tmp/mut-$ID-out/*/; do
+for d in ${MUTDIR:-/tmp/mut-$ID-out}/*/; do
   i=$(basename $d); echo "=== $ID mutation $i: $(/venv/bin/python -c "import json;print(json.load(open('$d/meta.json'))['summary'][:160])")"
   if ! git -C /repo apply --check $d/patch.diff 2>/dev/null; then echo "  patch does not apply"; continue; fi
   git -C /repo apply $d/patch.diff
